@@ -419,3 +419,25 @@ def correspondence(ctx, name, prefix, imports, defs, typ, cases, render, evalfun
                            'summary': 'model and implementation disagree (%d of %d cases)' % (len(bad), len(cases)),
                            'case': cases[b], 'coq_case': texts[b]})
     return bad
+
+
+def coq_map_cases(prefix, imports, defs, typ, case_texts, evalfun, shard=300, workers=8, timeout=900):
+    """Like coq_bad_cases but `evalfun cases` returns one integer per case.  Returns (list, None) or (None, err)."""
+    from concurrent.futures import ThreadPoolExecutor
+    chunks = [case_texts[i:i + shard] for i in range(0, len(case_texts), shard)]
+
+    def do(ix):
+        lines = ['From Coq Require Import ZArith List Bool.', 'Import ListNotations.'] + imports + \
+                ['Local Open Scope Z_scope.'] + defs + \
+                ['Definition cases : list (%s) := [\n%s].' % (typ, ';\n'.join(chunks[ix])),
+                 'Eval vm_compute in %s cases.' % evalfun]
+        rc, out = coqc_text('%s_%d' % (prefix, ix), '\n'.join(lines) + '\n', timeout=timeout)
+        return ix, rc, out
+    res = []
+    with ThreadPoolExecutor(max_workers=workers) as ex:
+        for ix, rc, out in ex.map(do, range(len(chunks))):
+            b = parse_coq_list_of_nat(out) if rc == 0 else None
+            if b is None or len(b) != len(chunks[ix]):
+                return None, out[-1500:]
+            res += b
+    return res, None
